@@ -91,7 +91,7 @@ PROPS = {
                  args=lambda tier, seed, casedir, coq: ["batch", "--n", str(q(tier, 300, 6000)), "--seed", str(seed)], coq_timeout=3000),
             bp_sys("C11", 60, 2000)],
         rule="whole-processor runs with max_concurrency in {0,1,2,3}, 2-7 callers, random export latencies/failures/cancellations, Shutdown while items are "
-             "buffered or callers wait; the recorded event log must be a trace of the protocol LTS (every step enabled), max in-flight measured at the "
+             "buffered or callers wait; the recorded event log must be a trace of the protocol LTS (every step enabled) and its response events (recv / send tuples / respond delivered or skipped) a trace of Batch/Resp.v, max in-flight measured at the "
              "downstream consumer, every export returned before Shutdown returned, 20 s watchdog for deadlocks",
         trusted_base=BP_TB + ["data-race freedom and goroutine leaks are runtime properties outside the model (goroutine count and -race runs are evidence only)"],
         assumptions=["downstream consumers return (possibly with an error); requests issued after Shutdown was called are outside the domain"],
